@@ -1,0 +1,9 @@
+//go:build verif
+
+package prompting
+
+// VerifDetermineResponseMode exposes determineResponseMode to the verification
+// harness.
+func VerifDetermineResponseMode(prompt string) ResponseMode {
+	return determineResponseMode(prompt)
+}
